@@ -231,7 +231,9 @@ CLAIMED = {
                 "exactly the state the corresponding *at call produces on (object the in-root walk of the parent ends on, final name) -- that tree, "
                 "or the old tree and that errno; the parent descriptor closed again, every other descriptor as it was; create_file's descriptor is "
                 "open on the very object now under that name (C14_*_exact_effect, through the bridge C14_bridge_static_to_dynamic: every program "
-                "that issues no tree-changing or directory-scan call runs on the dynamic kernel as on the static one). Runtime: snapshot difference "
+                "that issues no tree-changing or directory-scan call runs on the dynamic kernel as on the static one). The tree premises of these "
+                "theorems are invariants: every tree any sequence of the modelled operations can produce from an empty root satisfies them "
+                "(C14_every_reachable_tree_satisfies_the_premises: induction over operation lists, all renameat2 result shapes). Runtime: snapshot difference "
                 "of every successful call = exactly (raw-openat2 resolution of the parent, final name); final symlinks not followed; create_file's "
                 "fd is the file under that name; tie T2d: every recorded call of these operations answered by the dynamic model as by the running "
                 "kernel, and the model's final tree = the real tree.",
